@@ -102,7 +102,7 @@ function closeBridges() {
 }
 
 function genRun(index) {
-  const out = execFileSync(SIM, ["gen", "C14", String(index)], { encoding: "utf8", maxBuffer: 1 << 28, env: { ...process.env, VERIF_SEED: String(ROOT) } });
+  const out = execFileSync(SIM, ["gen", process.env.E2E_MODE === "oneshot" ? "C10" : "C14", String(index)], { encoding: "utf8", maxBuffer: 1 << 28, env: { ...process.env, VERIF_SEED: String(ROOT) } });
   return JSON.parse(out);
 }
 
@@ -329,6 +329,112 @@ async function execHistory(T, run, base) {
 }
 
 // ---------------------------------------------------------------------------------------------
+// C10, end to end: the same project built one-shot by brand-new processes (real host, real compiler) that
+// differ in how the project is reached - absolute path, a path through a symbolic link to the project
+// directory, a path relative to the working directory, packages under node_modules that are symbolic links
+// (what pnpm / workspaces do) - and in the compiler's hash keys. What the compiler returns and what is written
+// must be the same (the two spellings of the root mapped onto each other).
+// ---------------------------------------------------------------------------------------------
+async function execOneShot(T, run, base) {
+  const res = { violations: [], compared: 0, builds: 0, skipped: null };
+  const rootA = path.join(base, "proj");
+  const rootB = path.join(base, "proj_via_link");
+  fs.rmSync(rootA, { recursive: true, force: true });
+  fs.rmSync(rootB, { recursive: true, force: true });
+  for (const [f, c] of Object.entries(run.project.files)) {
+    fs.mkdirSync(path.dirname(path.join(rootA, f)), { recursive: true });
+    fs.writeFileSync(path.join(rootA, f), c);
+  }
+  // packages become symbolic links into a store, as a package manager with a content-addressed store lays them out
+  let linked = 0;
+  for (const f of Object.keys(run.project.files)) {
+    const m = /^(.*\/node_modules)\/([^/]+)\//.exec(f);
+    if (!m) continue;
+    const pkgDir = path.join(rootA, m[1], m[2]);
+    try {
+      if (fs.lstatSync(pkgDir).isSymbolicLink()) continue;
+    } catch {
+      continue;
+    }
+    const store = path.join(rootA, "p/.store", m[2] + "_" + fnv32(m[1]).toString(16));
+    fs.mkdirSync(path.dirname(store), { recursive: true });
+    fs.renameSync(pkgDir, store);
+    fs.symlinkSync(store, pkgDir, "dir");
+    linked++;
+  }
+  fs.symlinkSync(rootA, rootB, "dir");
+  const proj = { parser: path.relative(rootA, path.join(rootA, run.project.entry)), outputDir: "e2e_out", stringFormats: run.project.settings.string_formats.map((name) => ({ name })), numberFormats: run.project.settings.number_formats.map((name) => ({ name })) };
+  if (run.project.module && run.project.module !== "esm") proj.module = run.project.module;
+  fs.writeFileSync(path.join(rootA, "beff.json"), JSON.stringify(proj));
+  const realConsole = { error: console.error, log: console.log, warn: console.warn, info: console.info };
+  const realExit = process.exit;
+  const cwd0 = process.cwd();
+  globalThis.__bridge_panics = [];
+  const once = (project, cwd, seed) => {
+    fs.rmSync(path.join(rootA, "e2e_out"), { recursive: true, force: true });
+    globalThis.__bridge_seed = seed;
+    globalThis.__last_build = null;
+    globalThis.__beff_cli_opts = { watch: false, project, verbose: false };
+    process.chdir(cwd);
+    try {
+      T.newProcess().commanderExec();
+    } catch (e) {
+      if (!(e && e.message === "process.exit")) throw e;
+    } finally {
+      closeBridges();
+      process.chdir(cwd0);
+    }
+    res.builds++;
+    const f = path.join(rootA, "e2e_out/parser.js");
+    const strip = (x) => (x == null ? x : x.split(rootB).join("<ROOT>").split(rootA).join("<ROOT>"));
+    const lb = globalThis.__last_build;
+    return { code: lb ? lb.code : undefined, emitted: lb ? lb.emitted.map(strip) : null, disk: fs.existsSync(f) ? fs.readFileSync(f, "utf8") : null };
+  };
+  try {
+    console.error = console.log = console.warn = console.info = () => {};
+    process.exit = (code) => {
+      throw Object.assign(new Error("process.exit"), { exitCode: code });
+    };
+    const seeds = (run.variants || []).map((v) => v.hash_seed);
+    const variants = [
+      { name: "absolute path", project: path.join(rootA, "beff.json"), cwd: base, seed: seeds[0] || 7 },
+      { name: "absolute path, other hash keys", project: path.join(rootA, "beff.json"), cwd: base, seed: seeds[1] || 8 },
+      { name: "through a symbolic link to the project directory", project: path.join(rootB, "beff.json"), cwd: base, seed: seeds[0] || 7 },
+      { name: "relative to the working directory", project: path.relative(base, path.join(rootA, "beff.json")), cwd: base, seed: seeds[0] || 7 },
+      { name: "working directory inside the project, reached through the link", project: "beff.json", cwd: rootB, seed: seeds[2] || 9 },
+    ];
+    let baseOut = null;
+    for (const v of variants) {
+      const o = once(v.project, v.cwd, v.seed);
+      if (globalThis.__bridge_panics.length) {
+        res.skipped = "the compiler panicked (the C04 check's business)";
+        break;
+      }
+      if (!baseOut) {
+        baseOut = o;
+        continue;
+      }
+      res.compared++;
+      if (canon({ c: o.code, e: o.emitted }) !== canon({ c: baseOut.code, e: baseOut.emitted }) || o.disk !== baseOut.disk) {
+        const what = o.code !== baseOut.code ? "code" : canon(o.emitted) !== canon(baseOut.emitted) ? "diagnostics" : "generated file";
+        if (!res.violations.length) res.violations.push({ class: "e2e-one-shot-output-depends-on:" + v.name, detail: { differs_in: what, symlinked_packages: linked, base: { code: baseOut.code == null ? null : "#" + fnv32(baseOut.code).toString(16), emitted: baseOut.emitted }, here: { code: o.code == null ? null : "#" + fnv32(o.code).toString(16), emitted: o.emitted } } });
+      }
+    }
+    res.linked = linked;
+  } catch (e) {
+    res.skipped = "case could not be driven: " + String(e && e.stack).slice(0, 300);
+  } finally {
+    closeBridges();
+    Object.assign(console, realConsole);
+    process.exit = realExit;
+    process.chdir(cwd0);
+    fs.rmSync(rootB, { force: true });
+    fs.rmSync(rootA, { recursive: true, force: true });
+  }
+  return res;
+}
+
+// ---------------------------------------------------------------------------------------------
 // worker: histories from..to, one result line each
 // ---------------------------------------------------------------------------------------------
 async function worker(from, to, explicitFile) {
@@ -348,7 +454,7 @@ async function worker(from, to, explicitFile) {
   const out = (s) => fs.writeSync(1, s + "\n");
   if (explicitFile) {
     const run = JSON.parse(fs.readFileSync(explicitFile, "utf8"));
-    const r = await execHistory(T, run.run ?? run, base);
+    const r = process.env.E2E_MODE === "oneshot" ? await execOneShot(T, run.run ?? run, base) : await execHistory(T, run.run ?? run, base);
     out("R -1 " + JSON.stringify(r));
   } else {
     for (let i = from; i < to; i++) {
@@ -360,7 +466,7 @@ async function worker(from, to, explicitFile) {
         out("R " + i + " " + JSON.stringify({ violations: [], skipped: "generator failed" }));
         continue;
       }
-      const r = await execHistory(T, run, base);
+      const r = process.env.E2E_MODE === "oneshot" ? await execOneShot(T, run, base) : await execHistory(T, run, base);
       if (r.violations.length) r.run = run;
       out("R " + i + " " + JSON.stringify(r));
     }
@@ -404,26 +510,31 @@ function runWorker(from, to, onLine, explicitFile) {
 }
 
 const [cmd, a1, a2, a3] = process.argv.slice(2);
+// `e2eleg.mjs <tier> oneshot` is the C10 flavour of the leg (execOneShot)
+if (cmd !== "worker" && cmd !== "replay" && a1 === "oneshot") process.env.E2E_MODE = "oneshot";
 if (cmd === "worker") {
   await worker(Number(a1), Number(a2), a3);
   process.exit(0);
 }
 if (cmd === "replay") {
   const file = JSON.parse(fs.readFileSync(a1, "utf8"));
+  if (file.mode === "oneshot") process.env.E2E_MODE = "oneshot";
   let result = null;
   const r = await runWorker(0, 0, (line) => {
     if (line.startsWith("R ")) result = JSON.parse(line.slice(line.indexOf(" ", 2) + 1));
   }, a1);
   const hit = result && result.violations.find((v) => v.class === file.violation_class);
   if (hit || (r.stalledAt !== undefined && file.violation_class === "e2e-build-never-returns")) {
-    console.log(`VIOLATION property=C14 replay=${a1} class=${file.violation_class}`);
+    console.log(`VIOLATION property=${file.property || "C14"} replay=${a1} class=${file.violation_class}`);
     process.exit(1);
   }
   console.log(`replay of ${a1} did not reproduce class '${file.violation_class}'${result && result.skipped ? " (" + result.skipped + ")" : ""}`);
   process.exit(0);
 }
 const tier = cmd === "thorough" ? "thorough" : "quick";
-const N = Number(process.env.E2ELEG_RUNS || (tier === "quick" ? 400 : 20000));
+const ONESHOT = process.env.E2E_MODE === "oneshot";
+const PROP = ONESHOT ? "C10" : "C14";
+const N = Number(process.env.E2ELEG_RUNS || (ONESHOT ? (tier === "quick" ? 240 : 8000) : tier === "quick" ? 400 : 20000));
 const t0 = Date.now();
 const agg = { ran: true, histories: 0, checkpoints: 0, compared_with_a_fresh_one_shot_process: 0, change_events: 0, builds_in_watch_sessions: 0, skipped_because_the_compiler_panicked: 0, skipped_other: 0, stalled: [], violations: [] };
 const first = new Map();
@@ -478,17 +589,18 @@ if (notRunnable) {
 }
 const lines = [];
 for (const [cls, { index, run, v }] of [...first.entries()].sort()) {
-  const file = { engine: "e2eleg", property: "C14", violation_class: cls, root_seed: ROOT, run_index: index, run, observed: v.detail };
-  const dir = path.join(OUT, "replays", "C14");
+  const file = { engine: "e2eleg", property: PROP, mode: ONESHOT ? "oneshot" : "watch", violation_class: cls, root_seed: ROOT, run_index: index, run, observed: v.detail };
+  const dir = path.join(OUT, "replays", PROP);
   fs.mkdirSync(dir, { recursive: true });
   const p = path.join(dir, "e2eleg_" + fnv32(canon({ cls, index, ops: run && run.ops })).toString(16).padStart(8, "0") + ".json");
   fs.writeFileSync(p, JSON.stringify(file, null, 1));
   agg.violations.push({ class: cls, replay: p, first_seen_in_run: index });
-  lines.push(`VIOLATION property=C14 replay=${p} class=${cls}`);
+  lines.push(`VIOLATION property=${PROP} replay=${p} class=${cls}`);
 }
 agg.wall_s = (Date.now() - t0) / 1000;
 agg.what = "ssim's C14 histories executed end to end: the working tree's commandeer.ts / bundler.ts / bundle-to-disk.ts / project.ts in watch mode on a real scratch directory, the real compiler session (native, sim bridge) behind them; at every checkpoint the session's last build and the generated file are compared with a brand-new one-shot process";
-fs.writeFileSync(path.join(OUT, "e2eleg.json"), JSON.stringify(agg, null, 1));
+if (ONESHOT) agg.what = "one-shot runs end to end (the working tree's commandeer.ts / bundler.ts / bundle-to-disk.ts / project.ts, the real compiler behind them via sim bridge) of the projects ssim generates for C10: five brand-new processes per project that differ in how the project is reached (absolute path, through a symbolic link, relative path, working directory inside the linked project; packages under node_modules are symbolic links into a store) and in the compiler's hash keys; what the compiler returns and the generated file must be identical";
+fs.writeFileSync(path.join(OUT, ONESHOT ? "e2edet.json" : "e2eleg.json"), JSON.stringify(agg, null, 1));
 for (const l of lines) console.log(l);
-console.log(`E2ELEG histories=${agg.histories} checkpoints=${agg.checkpoints} compared=${agg.compared_with_a_fresh_one_shot_process} change_events=${agg.change_events} builds=${agg.builds_in_watch_sessions} skipped_panic=${agg.skipped_because_the_compiler_panicked} skipped_other=${agg.skipped_other} stalled=${agg.stalled.length} wall=${agg.wall_s.toFixed(1)}s`);
+console.log(`${ONESHOT ? "E2EDET" : "E2ELEG"} histories=${agg.histories} checkpoints=${agg.checkpoints} compared=${agg.compared_with_a_fresh_one_shot_process} change_events=${agg.change_events} builds=${agg.builds_in_watch_sessions} skipped_panic=${agg.skipped_because_the_compiler_panicked} skipped_other=${agg.skipped_other} stalled=${agg.stalled.length} wall=${agg.wall_s.toFixed(1)}s`);
 process.exit(lines.length ? 1 : 0);
